@@ -77,7 +77,7 @@ def gen_case(rnd):
     sample = None
     if rnd.random() < 0.25:
         sample = rnd.randrange(3)
-    names = ['svc:a', 'svc:b', 'helper', 'svc:c', 'other:x', 'a:b:c']
+    names = ['svc:a', 'svc:b', 'helper', 'svc:c', 'other:x', 'a:b:c', 'Zeta:x', 'svc:B', '_x:y']
     rules = {}
     for nme in names:
         if rnd.random() < 0.8:
